@@ -504,3 +504,34 @@ def check_C09(run, replay):
                 run.distinct.add(line)
                 run.sample(json.loads(line), limit=2)
     run.notes["stopped_early"] = info["stopped_early"]
+
+
+# ------------------------------------------------------------------------------------------ C05
+LEVELS["C05"] = "fault_enumeration"
+
+
+def check_C05(run, replay):
+    run.rule = ("TLC enumerates the configuration lattice of MC_Lattice.tla (all RegretParams::new tuples with exponents / "
+                "weight in {-inf,-1000,-1,0,1/2,1,2,1000,+inf}, the presets and None, budgets {0,1,2,3,40}, thresholds "
+                "{-1,0,1e-300,+inf,NaN}, threads {0,1,2,3,16,usize::MAX/3+1,usize::MAX}, three methods, ten games incl. all "
+                "payoffs equal, a player without decisions, payoffs of magnitude 1e6) by a deterministic stride slice and "
+                "states the specified verdict (ThreadDecision); every point runs in a child process under a 30 s watchdog: "
+                "normal return or the documented error, every infoset a distribution, bounds non-negative numbers that are "
+                "infinite iff the budget is 0; distinct by lattice index; every point is non-trivial")
+    run.assumptions = ["|payoff| <= 1e6", "hang = no return within 30 s",
+                       "usize::MAX/3 itself (65535 real threads in rayon) is not exercised: resource hazard for the sandbox"]
+    if replay:
+        cases, rows = replay_pipeline(run, "lattice", replay_case(replay)["case"])
+        absorb(run, rows, cases, mismatch_sig("solve"))
+        return
+    stride = 24989 if run.tier == "quick" else 997
+    res = tlc("MC_Lattice", env={"SLICE": run.seed % stride, "OF": stride, "NUMGAMES": 10}, timeout=3000)
+    run.add_tlc(res)
+    recs = res.out("OUT")
+    exp_path = run.path("lattice.exp.ndjson")
+    write_ndjson(exp_path, [{"id": i, "exp": dict(v, seed=run.seed)} for (i, v) in recs])
+    out_path = run.path("lattice.res.ndjson")
+    harness(["replay", "lattice", "--exp", exp_path, "--out", out_path], timeout=20000)
+    rows = read_ndjson(out_path)
+    run.notes["classes"] = class_counts(rows)
+    absorb(run, rows, {i: dict(v, seed=run.seed) for (i, v) in recs}, mismatch_sig("solve"))
